@@ -108,6 +108,8 @@ func (f *FieldR) goType() reflect.Type {
 		return reflect.TypeOf([]string(nil))
 	case "anys":
 		return reflect.TypeOf([]any(nil))
+	case "parr":
+		return reflect.TypeOf([2]*int64{})
 	case "mapsi":
 		return reflect.TypeOf(map[string]int64(nil))
 	case "pint":
@@ -250,6 +252,17 @@ func (f *FieldR) fill(rv reflect.Value) {
 			copy(s, v.Strs)
 			rv.Set(reflect.ValueOf(s))
 		}
+	case "parr": // an array of pointers, the first nil unless the value says otherwise
+		a := [2]*int64{}
+		if len(v.Ints) > 0 {
+			x := v.Ints[0]
+			a[1] = &x
+		}
+		if !v.Nil && len(v.Ints) > 1 {
+			y := v.Ints[1]
+			a[0] = &y
+		}
+		rv.Set(reflect.ValueOf(a))
 	case "anys": // a list of anything, null elements included
 		if !v.Nil {
 			s := []any{nil}
@@ -428,7 +441,7 @@ func keyNorm(name string) string {
 
 var scalarKinds = []string{"bool", "int", "int8", "int16", "int32", "int64", "uint", "uint8", "uint16", "uint32", "uint64", "float32", "float64", "string", "string", "int64",
 	"nuint16", "nint32", "nbool", "nfloat64", "nstring"} // n...: named types with that underlying kind
-var otherKinds = []string{"bytes", "ints", "strs", "mapsi", "pint", "pstr", "ppint", "any", "any", "arr3", "mapsm", "nstrs", "nports", "nmapli", "anys"}
+var otherKinds = []string{"bytes", "ints", "strs", "mapsi", "pint", "pstr", "ppint", "any", "any", "arr3", "mapsm", "nstrs", "nports", "nmapli", "anys", "parr"}
 var structKinds = []string{"struct", "pstruct", "structs", "pstructs", "mapst"}
 var tagForms = []string{"", "", "", `json:"%s"`, `json:"%s,omitempty"`, `json:",omitempty"`, `json:"-"`, `json:"%s,string"`, `json:"-,"`}
 var tagNames = []string{"a", "b", "name", "x_y", "Upper", "id", "with space", "é"}
@@ -541,7 +554,7 @@ func drawValue(t *rapid.T, f *FieldR, depth int) *ValueR {
 		if !zero {
 			v.S = rapid.SampledFrom([]string{"abc", "\x00\x01\xff", "hello world", "{}"}).Draw(t, "bs")
 		}
-	case "ints", "arr3", "nports":
+	case "ints", "arr3", "nports", "parr":
 		v.Nil = f.Kind != "arr3" && rapid.IntRange(0, 3).Draw(t, "nil") == 0
 		if !zero {
 			n := rapid.IntRange(1, 3).Draw(t, "n")
